@@ -113,6 +113,51 @@ impl C14 {
         let want_pipes = rng.range(1, 4);
         for step in 0..=nops {
             let drain = step == nops;
+            // the other built-in handlers share the machine with the pipes: a guest brk call (the first one creates the
+            // heap) leaves every pipe and its contents alone
+            if (install == 1 || install == 2) && rng.below(16) == 0 {
+                let r = sys(&mut ax, 12, 0, 0, 0);
+                tail.push(format!("brk(0) -> {}", r.kind()));
+                col.distinct_key("brk-alongside");
+                if r.is_panic() {
+                    return fail(col, &format!("panic:{}", r.panic_key()), r.describe(), &tail);
+                }
+            }
+            // transfers of nothing with the buffer on the very first byte of its area, and counts no buffer can hold
+            if !pipes.is_empty() && rng.below(24) == 0 {
+                let pi = rng.below(pipes.len() as u64) as usize;
+                let (rd, wr) = (pipes[pi].rd, pipes[pi].wr);
+                match rng.below(3) {
+                    0 => {
+                        let r = sys(&mut ax, 1, wr, BUF_AT, 0);
+                        tail.push(format!("write(pipe{}, 0 bytes from the first byte of the area) -> {}", pi, r.kind()));
+                        match r {
+                            Call::Ok(0) => {}
+                            other => return fail(col, "empty-write-at-area-start", format!("write of 0 bytes -> {}", match &other { Call::Ok(v) => format!("Ok({:#x})", v), o => o.describe() }), &tail),
+                        }
+                    }
+                    1 if pipes[pi].q.is_empty() => {
+                        let r = sys(&mut ax, 0, rd, BUF_AT, 16);
+                        tail.push(format!("read(empty pipe{}, into the first byte of the area) -> {}", pi, r.kind()));
+                        match r {
+                            Call::Ok(0) => {}
+                            other => return fail(col, "read-on-empty-pipe-at-area-start", format!("read(16) with nothing available -> {}", match &other { Call::Ok(v) => format!("Ok({:#x})", v), o => o.describe() }), &tail),
+                        }
+                    }
+                    _ => {
+                        let n = *rng.pick(&[u64::MAX, u64::MAX - 15, 1u64 << 63, u64::MAX - 0x1000]);
+                        let r = sys(&mut ax, 1, wr, BUF_AT + 0x100 + rng.below(0x100), n);
+                        tail.push(format!("write(pipe{}, {:#x} bytes) -> {}", pi, n, r.kind()));
+                        col.distinct_key("write|absurd-count");
+                        match r {
+                            Call::Panic(_) => return fail(col, &format!("panic:{}", r.panic_key()), r.describe(), &tail),
+                            Call::Ok(v) if v != 0 => return fail(col, "absurd-write-accepted", format!("write of {:#x} bytes returned {:#x}", n, v), &tail),
+                            _ => {}
+                        }
+                    }
+                }
+                col.eval(1);
+            }
             if let Some((nr, before, after)) = FLAGS_CHANGED.with(|f| f.take()) {
                 return fail(col, "syscall-changed-the-status-flags", format!("syscall {} entered with flags {:#x} came back with {:#x}", nr, before, after), &tail);
             }
